@@ -111,7 +111,8 @@ type action struct {
 
 type network struct {
 	mu       sync.Mutex
-	script   map[string][]action // key ("m" or segment number) -> per-attempt actions
+	objs     []enc.Name          // names given to the concurrent Consume calls of this op
+	script   map[string][]action // "<consume index>:<key>" (key = "m" or segment number) -> per-attempt actions
 	attempts map[string]int      // Interest name text -> number of Interests seen
 	used     map[int64]bool      // virtual instants already taken by a harness timer
 	events   []string
@@ -144,7 +145,27 @@ func keyOfName(name enc.Name) string {
 	return "q"
 }
 
+// objOf: which Consume call an Interest/Data name belongs to (longest matching consume name)
+func (n *network) objOf(name enc.Name) int {
+	best, bestLen := 0, -1
+	for i, o := range n.objs {
+		if o.IsPrefix(name) && len(o) > bestLen {
+			best, bestLen = i, len(o)
+		}
+	}
+	return best
+}
+
+// tag renders an event: kind, consume index (only when several consumes run), key
+func (n *network) tag(kind string, obj int, key string) string {
+	if len(n.objs) > 1 {
+		return string(rune('a'+obj)) + kind + key
+	}
+	return kind + key
+}
+
 type pend struct {
+	obj         int
 	name        enc.Name
 	canBePrefix bool
 	cb          ndn.ExpressCallbackFunc
@@ -218,6 +239,7 @@ func (e *hEngine) Express(interest *ndn.EncodedInterest, cb ndn.ExpressCallbackF
 	}
 	p := &pend{name: interest.FinalName.Clone(), canBePrefix: interest.Config.CanBePrefix, cb: cb, key: keyOfName(interest.FinalName)}
 	n.mu.Lock()
+	p.obj = n.objOf(p.name)
 	e.pending = append(e.pending, p)
 	p.timer = n.uniqueAfter(lifetime, func() {
 		n.mu.Lock()
@@ -227,7 +249,7 @@ func (e *hEngine) Express(interest *ndn.EncodedInterest, cb ndn.ExpressCallbackF
 		}
 		p.done = true
 		e.removePending(p)
-		n.events = append(n.events, "t"+p.key)
+		n.events = append(n.events, n.tag("t", p.obj, p.key))
 		n.mu.Unlock()
 		cb(ndn.ExpressCallbackArgs{Result: ndn.InterestResultTimeout})
 	})
@@ -261,10 +283,11 @@ func (n *network) relayInterest(wire []byte) {
 	n.attempts[txt]++
 	att := n.attempts[txt]
 	act := action{'d', defaultDelayMs}
-	if as := n.script[key]; att <= len(as) {
+	obj := n.objOf(name)
+	if as := n.script[strconv.Itoa(obj)+":"+key]; att <= len(as) {
 		act = as[att-1]
 	}
-	n.events = append(n.events, "i"+key)
+	n.events = append(n.events, n.tag("i", obj, key))
 	h := n.prod.lookup(name)
 	n.mu.Unlock()
 	if act.kind == 'i' || h == nil {
@@ -311,13 +334,13 @@ func (n *network) deliverData(wire []byte) {
 		}
 	}
 	if len(hit) == 0 {
-		n.events = append(n.events, "u"+keyOfName(name))
+		n.events = append(n.events, n.tag("u", n.objOf(name), keyOfName(name)))
 	}
 	for _, p := range hit {
 		p.done = true
 		p.timer.Stop()
 		n.cons.removePending(p)
-		n.events = append(n.events, "d"+p.key)
+		n.events = append(n.events, n.tag("d", p.obj, p.key))
 	}
 	n.mu.Unlock()
 	for _, p := range hit {
@@ -486,10 +509,9 @@ func splitWire(content []byte, split string) enc.Wire {
 	return w
 }
 
-func parseScript(s string) map[string][]action {
-	m := map[string][]action{}
+func parseScript(m map[string][]action, obj int, s string) {
 	if s == "-" || s == "" {
-		return m
+		return
 	}
 	for _, ent := range strings.Split(s, ";") {
 		i := strings.IndexByte(ent, ':')
@@ -509,9 +531,8 @@ func parseScript(s string) map[string][]action {
 				as = append(as, action{'d', common.Atoi(a[1:])})
 			}
 		}
-		m[ent[:i]] = as
+		m[strconv.Itoa(obj)+":"+ent[:i]] = as
 	}
-	return m
 }
 
 // ------------------------------------------------------------------ exec
@@ -621,14 +642,28 @@ func exec(op string) string {
 		pfx := a["pfx"] == "1"
 		return "mem=" + errStr(h.mem.Remove(name, pfx)) + " bolt=" + errStr(h.bolt.Remove(name, pfx))
 	case "consume":
-		name := common.ParseNameText(a["name"])
 		extra := 0
 		if a["cap"] != "" {
 			extra = common.Atoi(a["cap"])
 		}
-		n := make(enc.Name, len(name), len(name)+extra) // the caller's slice may have spare capacity
-		copy(n, name)
-		return h.consume(n, a["script"])
+		var names []enc.Name
+		scripts := []string{a["script"]}
+		for _, k := range []string{"name", "name2"} {
+			if a[k] == "" {
+				continue
+			}
+			name := common.ParseNameText(a[k])
+			n := make(enc.Name, len(name), len(name)+extra) // the caller's slice may have spare capacity
+			copy(n, name)
+			names = append(names, n)
+		}
+		if len(names) == 2 {
+			if names[0].Equal(names[1]) {
+				return "bad-op"
+			}
+			scripts = append(scripts, a["script2"])
+		}
+		return h.consume(names, scripts)
 	}
 	return "bad-op"
 }
@@ -647,22 +682,29 @@ type cbRec struct {
 //
 // events: i<k> Interest for k sent (k = m for metadata, else segment number), d<k> Data callback for the
 // pending Interest k, t<k> timeout callback for k, u<k> Data that matched no pending Interest.
-func (h *hist) consume(name enc.Name, script string) string {
+func (h *hist) consume(names []enc.Name, scripts []string) string {
 	n := h.net
 	n.mu.Lock()
-	n.script = parseScript(script)
+	n.script = map[string][]action{}
+	for i, sc := range scripts {
+		parseScript(n.script, i, sc)
+	}
+	n.objs = names
 	n.attempts = map[string]int{}
 	n.events = nil
 	n.mu.Unlock()
 	var mu sync.Mutex
-	var recs []cbRec
-	h.cons.Consume(name, func(st *object.ConsumeState) bool {
-		b := st.Content()
-		mu.Lock()
-		recs = append(recs, cbRec{len(b), hashBytes(b), st.IsComplete(), st.Error() != nil})
-		mu.Unlock()
-		return true
-	})
+	recs := make([][]cbRec, len(names))
+	for i, name := range names {
+		i := i
+		h.cons.Consume(name, func(st *object.ConsumeState) bool {
+			b := st.Content()
+			mu.Lock()
+			recs[i] = append(recs[i], cbRec{len(b), hashBytes(b), st.IsComplete(), st.Error() != nil})
+			mu.Unlock()
+			return true
+		})
+	}
 	fin := 0
 	time.Sleep(137 * time.Nanosecond)
 	for i := 0; i < 400; i++ {
@@ -683,27 +725,35 @@ func (h *hist) consume(name enc.Name, script string) string {
 	if ev == "" {
 		ev = "-"
 	}
+	out := "ev=" + ev
 	mu.Lock()
-	parts := make([]string, len(recs))
-	for i, r := range recs {
-		fl := ""
-		if r.complete {
-			fl += "c"
+	for i := range names {
+		parts := make([]string, len(recs[i]))
+		for j, r := range recs[i] {
+			fl := ""
+			if r.complete {
+				fl += "c"
+			}
+			if r.err {
+				fl += "e"
+			}
+			if fl == "" {
+				fl = "-"
+			}
+			parts[j] = fmt.Sprintf("%d:%d:%s", r.n, r.hash, fl)
 		}
-		if r.err {
-			fl += "e"
+		cb := strings.Join(parts, ",")
+		if cb == "" {
+			cb = "-"
 		}
-		if fl == "" {
-			fl = "-"
+		key := " cb="
+		if i > 0 {
+			key = " cb" + strconv.Itoa(i+1) + "="
 		}
-		parts[i] = fmt.Sprintf("%d:%d:%s", r.n, r.hash, fl)
+		out += key + cb
 	}
 	mu.Unlock()
-	cb := strings.Join(parts, ",")
-	if cb == "" {
-		cb = "-"
-	}
-	return fmt.Sprintf("ev=%s cb=%s fin=%d", ev, cb, fin)
+	return out + fmt.Sprintf(" fin=%d", fin)
 }
 
 // ------------------------------------------------------------------ entry point
@@ -741,7 +791,7 @@ func runExec(t *testing.T) {
 		t.Fatal(err)
 	}
 	// watchdog on REAL time (outside any bubble): a spinning client goroutine never lets the bubble idle
-	limit := int64(common.EnvInt("VERIF_C15_WATCHDOG_S", 60))
+	limit := int64(common.EnvInt("VERIF_C15_WATCHDOG_S", 10))
 	go func() {
 		last, same := int64(-1), int64(0)
 		for {
